@@ -490,7 +490,7 @@ class Processor:
             refs = node.merge if hasattr(node, "merge") else []
             already_refed = False
             for (_, ref_node) in refs:
-                if ref_node == anchor_node:
+                if ref_node is anchor_node:
                     already_refed = True
                     break
             if already_refed:
@@ -811,7 +811,7 @@ class Processor:
                     and len(parent.merge) > 0
                 ):
                     for merge_pos, (_, merge_node) in enumerate(parent.merge):
-                        if merge_node == compare_node:
+                        if merge_node is compare_node:
                             for (key, val) in merge_node.items():
                                 if key in parent and parent[key] == val:
                                     del parent[key]
@@ -1303,7 +1303,7 @@ class Processor:
                                 "merge_node": merge_node,
                                 "anchor_node": compare_node
                             })
-                        if merge_node == compare_node:
+                        if merge_node is compare_node:
                             next_ancestry = ancestry + [(data, merge_node)]
                             yield NodeCoords(
                                 compare_node, data,
